@@ -101,6 +101,9 @@ func Worker(shard, n int, tier string) *engine.Result {
 			bs = append(bs, "{"+strings.Join(ns, ",")+"}")
 		}
 		cur = strings.Join(bs, " ")
+		if engine.SkipScenario(cur) {
+			continue
+		}
 		lastNames = nil
 		_, ref, _ := f.RunReference(p, tmpl)
 		for _, st := range ref {
